@@ -8,10 +8,13 @@ def sched_cases(tier):
     def add(cfg, sca, win, mode):
         cs.append({'CFG': cfg, 'SCA': sca, 'WIN': win, 'MODE': mode})
     if tier == 'quick':
+        # measured (one full core): MODE 0 without transmit window ~35 s, MODE 2 ~70 s; cases with a transmit window (WIN 0 / 2 in
+        # MODE 0 / 1) need more than 4 min each: thorough tier only
         for sca in range(8):
             add(0, sca, 1, 0)
-        add(0, 0, 0, 0); add(0, 7, 2, 0); add(1, 0, 1, 0); add(1, 7, 0, 0)
-        add(0, 0, 1, 1); add(1, 7, 0, 1); add(0, 3, 2, 1)
+        add(1, 0, 1, 0)
+        # MODE 1 (timeout(): lost event, supervision timeout) gave no verdict on the fixed tree within 14 min of solver time (only the
+        # seeded supervision bug was found, in 16 s): listed in the thorough tier, not proved
         add(0, 0, 1, 2); add(1, 7, 0, 2)
     else:
         for cfg in (0, 1):
@@ -35,17 +38,17 @@ def connect_cases(tier):
 
 PROPERTY = Property(
     'C22',
-    [Harness('c22_sched', LLB, 'harness/c22_sched.c', sched_cases, unwind=40, timeout=900,
+    [Harness('c22_sched', LLB, 'harness/c22_sched.c', sched_cases, unwind=40, timeout=3000,
              description='setup_next_connection_event / timeout() / end_event() from an arbitrary state: scheduled receive window vs. '
                          'elapsed time x combined sleep clock accuracy, whole number of intervals, supervision timeout',
              bounds='time since the last anchor 0..36 s (supervision timeout max 32 s + one interval of max 4 s); interval 6..3200 x 1.25 ms; '
                     'latency 0..499; timeout 10..3200 x 10 ms; transmit window size 1..8, offset 0..3201 x 1.25 ms or absent; '
                     'central SCA index case split 0..7 and link state (connecting / connected / connection_changed) case split: quick: all 8 SCA values for the 500 ppm '
                     'configuration without transmit window in MODE 0, a selection for the other combinations; thorough: all 8 x 3 x 2 in MODE 0, SCA 0/3/7 in MODE 1/2'),
-     Harness('c22_ppm', LLB, 'harness/c22_ppm.c', ppm_cases, unwind=40, timeout=900,
+     Harness('c22_ppm', LLB, 'harness/c22_ppm.c', ppm_cases, unwind=40, timeout=3000,
              description='delta_time::ppm for every elapsed time on the 1.25 ms grid: t*ppm/10^6 - 2 us < ppm(t) <= t*ppm/10^6',
              bounds='elapsed time u x 1.25 ms, u = 0..65535 (81.9 s); ppm = local (500 / 50) + central SCA table value: quick 4 of the 16 sums, thorough all 16'),
-     Harness('c22_connect', LLB, 'harness/c22_connect.c', connect_cases, unwind=40, timeout=900,
+     Harness('c22_connect', LLB, 'harness/c22_connect.c', connect_cases, unwind=40, timeout=3000,
              description='adv_received() on a symbolic CONNECT_IND addressed to the device, and parse_timing_parameters_from_connect_request '
                          'on 34 symbolic bytes: established / accepted only with valid timing parameters',
              bounds='all values of InitA, access address, CRC init, WinSize, WinOffset, Interval, Latency, Timeout, Hop, SCA, TxAdd; '
@@ -66,9 +69,12 @@ PROPERTY = Property(
     explanation='The scheduling call made to the (stub) radio is checked for one step from every state satisfying the invariant: direct call, after a lost event '
                 '(timeout(): time grows by exactly one interval) and after an event with a packet (end_event(): time restarts at n intervals, 1 <= n <= latency+1). '
                 'By induction over events every scheduled event is at the last anchor plus a whole number of intervals (plus transmit window after connect/update), and its '
-                'receive window is widened on both sides by at least elapsed x (local + central ppm) / 10^6 - 1 us, for each of the 8 central SCA values. timeout() drops the '
+                'receive window is widened on both sides by more than elapsed x (local + central ppm) / 10^6 - 2 us, for each of the 8 central SCA values. timeout() drops the '
                 'link only when the time since the last anchor has reached the supervision timeout (or 6 windows of a new connection were missed). adv_received() on a symbolic '
                 'CONNECT_IND establishes a connection only if the timing parameters satisfy the Core spec validity predicate.',
-    outside=['accuracy of the real radio timer and of the anchor measured by the radio driver', 'connection parameters outside the Core spec ranges in the scheduling lemmas '
+    outside=['QUICK TIER: only scheduling without transmit window (setup_next_connection_event, end_event) is proved; the cases with a transmit window (WIN 0/2) and the '
+             'timeout() step incl. the supervision timeout rule (MODE 1) are listed in the thorough tier but gave no verdict within 4..14 min of solver time each on the fixed tree '
+             '(a seeded supervision bug was found in 16 s)',
+             'accuracy of the real radio timer and of the anchor measured by the radio driver', 'connection parameters outside the Core spec ranges in the scheduling lemmas '
              '(excluded by the validity lemma)', 'elapsed times above 36 s', 'other link layer option sets', 'channel map content of the connect request (C20)'],
 )
